@@ -810,6 +810,13 @@ bool VariableManager::handle_reference_variable(const ASTNode *node) {
             }
         }
 
+        // a const object is not bound to a T& that permits writes
+        if (target_var->is_const && !node->is_const) {
+            throw std::runtime_error(
+                "Cannot bind const variable '" + target_var_name +
+                "' to non-const reference '" + node->name + "'");
+        }
+
         if (interpreter_->is_debug_mode()) {
             std::cerr << "[VAR_MANAGER] Creating reference " << node->name
                       << " -> " << target_var_name
